@@ -200,6 +200,46 @@ def run_plain(nwatches, regs, nevents):
     return problems
 
 
+def detached_handlers_stay_detached():
+    """'a handler never receives an event of a watch it is not registered for': handlers detached by unschedule() /
+    unschedule_all() - including a handler that was attached to a watch while it was not scheduled - receive nothing when an
+    equal watch is scheduled again for another handler"""
+    problems = []
+    for how in ("unschedule_all", "unschedule"):
+        got = {"old": [], "late": [], "new": []}
+
+        class R(FileSystemEventHandler):
+            def __init__(self, tag):
+                self.tag = tag
+
+            def dispatch(self, event):
+                got[self.tag].append(event.src_path)
+        obs = BaseObserver(NullEmitter, timeout=0.05)
+        try:
+            w = obs.schedule(R("old"), "/w0")
+            obs.unschedule(w)
+            obs.add_handler_for_watch(R("late"), w)          # allowed by the API: the watch is not scheduled right now
+            if how == "unschedule_all":
+                obs.unschedule_all()
+            else:
+                obs.schedule(R("old"), "/w0")
+                obs.unschedule(w)
+            w2 = obs.schedule(R("new"), "/w0")
+            next(iter(obs.emitters)).queue_event(FileCreatedEvent("/w0/e"))
+            while obs.event_queue.qsize():
+                obs.dispatch_events(obs.event_queue)
+            if got["old"] or got["late"] or got["new"] != ["/w0/e"]:
+                problems.append(f"after {how}() and a new schedule() of an equal watch: detached handlers received {got['old'] + got['late']}, the new handler {got['new']}")
+        except Exception as e:  # noqa: BLE001
+            problems.append(f"{how}: {type(e).__name__}: {e}")
+        finally:
+            try:
+                obs.unschedule_all()
+            except Exception:  # noqa: BLE001
+                pass
+    return problems
+
+
 def two_observers():
     """two observers in one process, each with a handler on an equal watch: what A's emitter queues is dispatched by A, to
     A's handler, and never reaches B's handler"""
@@ -236,6 +276,9 @@ def two_observers():
 def main():
     if REPLAY is not None:
         c = REPLAY
+        if c["kind"] == "detached":
+            pr = detached_handlers_stay_detached()
+            replay_result(bool(pr), pr[:3])
         if c["kind"] == "two-observers":
             pr = two_observers()
             replay_result(bool(pr), pr[:3])
@@ -273,6 +316,10 @@ def main():
         pr = run_program(nw, regs, scripts, 4)
         if pr:
             bat.fail("C04.reentrant-dispatch", pr[0], {"kind": "prog", "nw": nw, "regs": [list(r) for r in regs], "scripts": {str(k): [list(a) for a in v] for k, v in scripts.items()}, "nev": 4, "problems": pr[:3]}, "BaseObserver.dispatch_events")
+    bat.case("detached-handlers")
+    pr = detached_handlers_stay_detached()
+    if pr:
+        bat.fail("C04.detached-handler-called", pr[0], {"kind": "detached", "problems": pr[:3]}, "BaseObserver.unschedule_all")
     bat.case("two-observers")
     pr = two_observers()
     if pr:
